@@ -92,6 +92,63 @@ pub struct MapFile {
     pub blocks: Vec<Block>,
 }
 
+impl MapFile {
+    /// Degenerate variant: zero-length names. Outside the domain in which mapper and cache are comparable (the cache's
+    /// string table cannot hold ""), but inside "every mapping" / "every byte string": per block, `key` selects which
+    /// slot is emptied — all obfuscated method names (several entries then share the empty name and differ in their
+    /// arguments only), all sourceFile values, the original method names, the obfuscated class name, the argument
+    /// strings, or the return types.
+    pub fn degenerate(&self, key: u64) -> MapFile {
+        let mut k = key | 1;
+        let mut next = move || {
+            k ^= k << 13;
+            k ^= k >> 7;
+            k ^= k << 17;
+            k
+        };
+        let mut out = self.clone();
+        for b in &mut out.blocks {
+            let mode = next() % 8;
+            if mode == 3 {
+                b.obf.clear();
+            }
+            for it in &mut b.items {
+                match it {
+                    Item::Method(m) => match mode {
+                        0 => m.obf.clear(),
+                        2 => m.oname.clear(),
+                        4 => m.args.clear(),
+                        5 => {
+                            if next() % 2 == 0 {
+                                m.obf.clear()
+                            }
+                        }
+                        6 => m.oclass = m.oclass.as_ref().map(|_| String::new()),
+                        _ => {}
+                    },
+                    Item::SourceFile(n) => {
+                        if mode == 1 || mode == 5 || mode == 7 {
+                            n.clear()
+                        }
+                    }
+                    Item::Header { key, value } if key == "sourceFile" => {
+                        if mode == 1 || mode == 7 {
+                            *value = Some(String::new())
+                        }
+                    }
+                    Item::Field { obf, .. } => {
+                        if mode == 0 {
+                            obf.clear()
+                        }
+                    }
+                    _ => {}
+                }
+            }
+        }
+        out
+    }
+}
+
 // ---------------------------------------------------------------------------------------------
 // rendering
 
@@ -237,6 +294,8 @@ pub fn join_lines(lines: &[String], r: &Render) -> Vec<u8> {
 
 pub const OBF_CLASSES: &[&str] = &[
     "a", "a.a", "a.b", "a$a", "ab", "A", "é", "I", "Lib", "a.a$1", "b", "c",
+    // names that coincide with tokens of other notations: primitive keywords and codes, descriptor-shaped names
+    "int", "void", "boolean", "V", "Z", "La/a;", "a/a",
 ];
 pub const ORIG_CLASSES: &[&str] = &[
     "com.example.Foo",
@@ -261,7 +320,11 @@ pub const FOREIGN: &[&str] = &[
     "é.ü",
     "Outer$Inner",
 ];
-pub const FILES: &[&str] = &["Foo.kt", "SourceFile", SYNTHETIC, "Bar.java", "ü.kt", "My File.kt"];
+pub const FILES: &[&str] = &[
+    "Foo.kt", "SourceFile", SYNTHETIC, "Bar.java", "ü.kt", "My File.kt",
+    // near-misses of the one file name with a special meaning
+    "R8$$SyntheticClassKt.kt", "R8$$", "R8$$SyntheticClas", "xR8$$SyntheticClass", "r8$$syntheticclass", "R8$$SyntheticClass.java", "R8$$SyntheticClass ",
+];
 
 /// identifier characters that are legal in every name slot of the grammar
 /// (no space, colon, parentheses, dot, line terminators, quote, arrow)
@@ -487,6 +550,13 @@ pub fn header(cfg: &GenCfg) -> BoxedStrategy<Item> {
         (2, h("{\"id\":\"com.android.tools.r8.mapping\",\"version\":\"2.0\"}", None)),
         (2, h("{\"id\":\"com.android.tools.r8.synthesized\"}", None)),
         (2, h("sourceFileX", Some("nope.kt"))),
+        (1, h("SourceFile", Some("nope.kt"))),
+        (1, h("sourcefile", Some("nope.kt"))),
+        (1, h("source_file", Some("nope.kt"))),
+        (1, h("{\"id\":\"sourcefile\",\"fileName\":\"nope.kt\"}", None)),
+        (1, h("{\"id\":\"sourceFile\",\"filename\":\"nope.kt\"}", None)),
+        (1, h("{\"id\": \"sourceFile\", \"fileName\": \"nope.kt\"}", None)),
+        (1, h("{\"fileName\":\"nope.kt\",\"id\":\"sourceFile\"}", None)),
         (if plain { 4 } else { 0 }, h("sourceFile", None)),
         (if plain { 4 } else { 0 }, f.prop_map(|n| Item::Header { key: "sourceFile".into(), value: Some(n) }).boxed()),
     ])
